@@ -98,12 +98,41 @@ class CmObj:
         return None
 
 
+def cm_gen_suppressing(rec, sid, value):
+    """generator-based context manager whose clean-up HANDLES the exception passing through it"""
+    @contextlib.contextmanager
+    def gen():
+        rec.ev(f"e{sid}")
+        try:
+            yield value
+        except BaseException:
+            rec.ev(f"x{sid}")      # cleaned up; the exception is not re-raised
+        else:
+            rec.ev(f"x{sid}")
+    return gen()
+
+
+class CmObjSuppressing(CmObj):
+    """class-based context manager whose `__exit__` returns True"""
+
+    def __exit__(self, *exc):
+        self.rec.ev(f"x{self.sid}")
+        return True
+
+
 def make_cm(style, rec, sid, value=None):
     if style == "g":
         return cm_gen(rec, sid, value)
     if style == "k":
         return CmObj(rec, sid, value)
+    if style == "u":
+        return cm_gen_suppressing(rec, sid, value)
+    if style == "t":
+        return CmObjSuppressing(rec, sid, value)
     raise HarnessError(f"cm style {style!r}")
+
+
+STYLES = ("g", "k", "t", "u")
 
 
 # ---- mixin factories ---------------------------------------------------------------------
@@ -127,21 +156,21 @@ class HostStub:
 def mixin(tok, sid, delay, console):
     """one base class for the token `tok` at position `sid` of the composition"""
     kind, style = tok[0], tok[1:]
-    if kind in CM_KINDS and style in ("g", "k"):
+    if kind in CM_KINDS and style in STYLES:
         base, meth = CM_KINDS[kind]
         return type(f"Mix{kind.upper()}{sid}", (base,), {meth: lambda self: make_cm(style, self._life, sid)})
-    if kind == "c" and style in ("g", "k") and console:
+    if kind == "c" and style in STYLES and console:
         # the REAL ConsoleConnector._connect: `with self.host.clone() as cloned, self.connect(cloned) as ch`
         return type(f"Console{sid}", (connector.ConsoleConnector,), {
             "connect": lambda self, mach: make_cm(style, self._life, sid, self._life_ch)})
-    if kind == "c" and style in ("g", "k"):
+    if kind == "c" and style in STYLES:
         def _connect(self):
             return make_cm(style, self._life, sid, self._life_ch)
 
         def clone(self):
             raise tbot.error.AbstractMethodError()
         return type(f"Conn{sid}", (connector.Connector,), {"_connect": _connect, "clone": clone})
-    if kind == "s" and style in ("g", "k"):
+    if kind == "s" and style in STYLES:
         return type(f"Sh{sid}", (shell.Shell,), {
             "_init_shell": lambda self: make_cm(style, self._life, sid),
             "exec": lambda self, *a: None})
@@ -158,11 +187,15 @@ def mixin(tok, sid, delay, console):
     raise HarnessError(f"base token {tok!r}")
 
 
-def compose(bases_tok, delay):
+def compose(bases_tok, delay, staged=0):
+    """`staged` = k > 0: the LAST k bases (with the shell / connector they may contain) form a class of their own
+    when that is a complete machine — it is instantiated and entered once, fault-free and unrecorded, before the
+    class of the case is derived from it by adding the remaining mixins in front (`class Case(Mix0, …, Base)`):
+    the MRO and therefore the order of the steps are the same as for the flat composition."""
     toks = [] if bases_tok == "." else bases_tok.split(",")
     bases, ns = [], {}
     hosts = [(sid, tok) for sid, tok in enumerate(toks) if tok[0] == "l"]
-    if len(hosts) > 1 or any(t[1:] not in ("g", "k") for _, t in hosts):
+    if len(hosts) > 1 or any(t[1:] not in STYLES for _, t in hosts):
         raise HarnessError("at most one lab-host token lg/lk")
     for sid, tok in enumerate(toks):
         if tok[0] == "l":
@@ -176,9 +209,38 @@ def compose(bases_tok, delay):
     kinds = [t[0] for t in toks]
     if kinds.count("c") != 1 or kinds.count("s") != 1 or kinds.count("w") > 1:
         raise HarnessError("composition needs exactly one connector and shell, at most one PowerControl")
-    cls = type("LifeMachine", tuple(bases), ns)
     host = HostStub(hosts[0][1][1:], hosts[0][0]) if hosts else None
+    k = min(staged, len(bases))
+    if k > 0:
+        tail = bases[len(bases) - k:]
+        names = [b.__mro__[1].__name__ for b in tail]
+        complete = (any(issubclass(b, connector.Connector) for b in tail) and any(issubclass(b, shell.Shell) for b in tail))
+        if complete:
+            base = type("LifeBase", tuple(tail), {})
+            warm_up(base, host)
+            return type("LifeMachine", tuple(bases[:len(bases) - k]) + (base,), ns), host
+    cls = type("LifeMachine", tuple(bases), ns)
     return cls, host
+
+
+def warm_up(base, host):
+    """one complete fault-free life-cycle of the base class (nothing of it is part of the observation)"""
+    rec = Recorder()
+    if host is not None:
+        saved, host.rec = host.rec, rec
+        m = base(host)
+    else:
+        m = base()
+    m._life = rec
+    m._life_ch = channel.Channel(NullIO())
+    vclock.CLOCK.reset(0)
+    try:
+        with vclock.CLOCK:
+            with m:
+                pass
+    finally:
+        if host is not None:
+            host.rec = saved
 
 
 # ---- body interpreter --------------------------------------------------------------------
@@ -239,8 +301,9 @@ def run_case(line):
     toks = line.split()
     if len(toks) < 2:
         raise HarnessError("case needs <bases> <delay>")
-    delay = int(toks[1])
-    cls, host = compose(toks[0], delay)
+    dtok = toks[1].split("@")
+    delay = int(dtok[0])
+    cls, host = compose(toks[0], delay, int(dtok[1]) if len(dtok) > 1 else 0)
     rec = Recorder()
     bases = [] if toks[0] == "." else toks[0].split(",")
     rec.power_sid = bases.index("w") if "w" in bases else None
@@ -258,7 +321,8 @@ def run_case(line):
         real_sleep(secs)
 
     out = []
-    vclock.CLOCK.reset(0)
+    # (a derived class inherits the base class's power-off time stamp: the case starts long after the warm-up)
+    vclock.CLOCK.reset(10 ** 6 if len(dtok) > 1 else 0)
     time.sleep = sleep
     try:
         with vclock.CLOCK:
